@@ -81,6 +81,34 @@ ROUND6 = {
 DISCOVERY = ("Build configurations are not a fixed list: bin/check asks the go tool which library files each candidate configuration selects (GOAMD64=v2/v3/v4, no cgo, the race tag, GO386=softfloat, "
              "every non-platform build tag the library's own constraints mention) and runs the check in each configuration that selects files no other one builds.")
 
+# additions of validation round 8 (DESIGN.md 10.4 a8)
+OWN = ("ownership monitors (single goroutine): the same deterministic call repeated on one long-lived object after the caller destroyed in place everything the earlier calls returned, "
+       "and one address holding successive values (`*p = *q`) between calls")
+ROUND8 = {
+    "C01": "Also: a concurrent phase in the production build (and, when the library synchronises, the yield build) - 16 goroutines compute inverse / roots / ratio roots / products / wide reductions of a hot set of four operands against precomputed model values.",
+    "C02": "Also: the same concurrent phase for scalars (inverse, product, Sum/Product, reducing decode, half-order test on a hot operand set).",
+    "C03": "Also: the in-place setters (Identity, SetBytes of the identity encoding, Generator, the three decoders) applied to registers with a past inside the drift histories; panic-then-use (a recovered panic of an uninitialised / nil operand, then valid calls against the model).",
+    "C04": "Also: panic-then-use for every variable-base entry point; " + OWN + ".",
+    "C05": "Also: panic-then-use (DoubleScalarMultBasepointVartime abandoned after the generator half, then valid calls).",
+    "C06": "Also: " + OWN + ".",
+    "C07": "Also: " + OWN + ".",
+    "C08": "Also: " + OWN + " (RFC 6979 and fixed-entropy SignRaw, every wire form).",
+    "C09": "Also: the same 32 entropy bytes through the standard library's reader types (*bytes.Reader, *bytes.Buffer, *strings.Reader, *bufio.Reader, LimitedReader, MultiReader, SectionReader, TeeReader, pipe, *os.File, iotest wrappers) and through a reader offering every optional io interface - same signature, exactly 32 bytes gone; the scripted system reader passed explicitly as `rand`; every key object of the harness is built from a buffer that is overwritten afterwards.",
+    "C10": "Also: " + OWN + " (ECDH through one peer pointer whose pointee is replaced by value).",
+    "C11": "Also: " + OWN + ".",
+    "C13": "Also: PreHashSchnorrMessage on names related to the tags BIP-340 itself uses (equal, NUL / space suffixed, truncated), in process and as the first call of cold-start sequences; " + OWN + ".",
+    "C14": "Also: the standard reader types as the randomness source; " + OWN + ".",
+    "C15": "Also: repeated hashing after the caller destroyed the returned points.",
+    "C16": "Also: panic-then-use (a list with an uninitialised / nil entry at a chosen position or mismatched lengths, recovered, then shorter / equal / longer valid calls); " + OWN + ".",
+    "C17": "Also: every operation traced once more right after the SAME operation on a fixed secret that is itself among the secrets (a memo consulted by comparing with the previous secret takes another path exactly then).",
+    "C18": "Also: 8 goroutines make the simultaneous FIRST accessor calls on fresh key / point / scalar objects (700 rounds quick), then overwrite what they were given, then the accessors are read again; panic-then-use.",
+    "C19": "Also: the cross-build transcript uses receivers with a past (zero value, identity, generator, earlier results).",
+    "C20": "Also: hash-to-curve tags composed in a private buffer that each goroutine reuses, against the reference model; the callers overwrite the results of the concurrent first accessor calls and read again.",
+}
+DISCOVERY8 = ("Run-time dispatch is discovered the same way (nothing of it on the pinned tree): when the library reads an environment variable the check runs again with the variable set to 1 / 0 / true / off and to the "
+              "string literals of the file that reads it; when it asks for GOMAXPROCS / NumCPU, on 1, 3, 6 and 7 CPUs; when it uses finalizers, cleanups or weak pointers, under back-to-back collections; when it has more unsafe pointer "
+              "operations than the pinned tree's single cast, with -d=checkptr; when a file is constrained to a Go release newer than the default toolchain, with go1.26.8.")
+
 PENDING_REASON = "not claimed yet: monitor under construction in this round (the technique applies; see DESIGN.md section 5)"
 
 
@@ -102,9 +130,24 @@ def main():
     for pid, add in ROUND6.items():
         if pid in CHECKS and add not in CHECKS[pid]["text"]:
             CHECKS[pid] = dict(CHECKS[pid], text=CHECKS[pid]["text"] + " " + add)
+    for pid, add in ROUND8.items():
+        if pid in CHECKS and add not in CHECKS[pid]["text"]:
+            CHECKS[pid] = dict(CHECKS[pid], text=CHECKS[pid]["text"] + " " + add)
+    for pid in ("C01", "C02"):
+        if pid in CHECKS and "concurrent replay" not in CHECKS[pid]["tech"]:
+            CHECKS[pid] = dict(CHECKS[pid], tech=CHECKS[pid]["tech"] + "; concurrent replay of a hot operand set against precomputed model results (plain and yield-instrumented builds)")
+    for pid in ("C03", "C04", "C05", "C16", "C18"):
+        if pid in CHECKS and "panic-then-use" not in CHECKS[pid]["tech"]:
+            CHECKS[pid] = dict(CHECKS[pid], tech=CHECKS[pid]["tech"] + "; panic-then-use fault injection at the API boundary (recovered panic, then valid calls against the model)")
+    for pid in ("C04", "C06", "C07", "C08", "C10", "C11", "C13", "C14", "C15", "C16"):
+        if pid in CHECKS and "ownership" not in CHECKS[pid]["tech"]:
+            CHECKS[pid] = dict(CHECKS[pid], tech=CHECKS[pid]["tech"] + "; ownership monitors (results destroyed by the caller between repeated calls; successive values at one address)")
+    for pid in CHECKS:
+        if DISCOVERY8 not in CHECKS[pid]["text"] and DISCOVERY in CHECKS[pid]["text"]:
+            CHECKS[pid] = dict(CHECKS[pid], text=CHECKS[pid]["text"].replace(DISCOVERY, DISCOVERY + " " + DISCOVERY8))
     for pid in CHECKS:
         if DISCOVERY not in CHECKS[pid]["text"]:
-            CHECKS[pid] = dict(CHECKS[pid], text=CHECKS[pid]["text"] + " " + DISCOVERY)
+            CHECKS[pid] = dict(CHECKS[pid], text=CHECKS[pid]["text"] + " " + DISCOVERY + " " + DISCOVERY8)
         if pid in ROUND6 and "concurrent phase" in ROUND6[pid] and "concurrent replay" not in CHECKS[pid]["tech"]:
             CHECKS[pid] = dict(CHECKS[pid], tech=CHECKS[pid]["tech"] + "; concurrent replay against precomputed model results (plain and yield-instrumented builds), concurrent cold start in fresh processes")
     if "C17" in CHECKS and "lackey" not in CHECKS["C17"]["tech"]:
